@@ -1,4 +1,5 @@
 CONSTANTS
+  GenSparse = FALSE
   GenLen = 0
   FixU1 = TRUE
   MaxOps = 0
